@@ -26,6 +26,8 @@ T_PROD = 'HEATING, COOLING AND/OR ELECTRICITY PRODUCTION PROFILE'
 T_ANN = 'ANNUAL HEATING, COOLING AND/OR ELECTRICITY PRODUCTION PROFILE'
 T_REV = 'REVENUE & CASHFLOW PROFILE'
 T_EXT = 'EXTENDED ECONOMIC PROFILE'
+T_SDAC = 'S-DAC-GT PROFILE'
+S_SDAC = 'S-DAC-GT ECONOMICS'
 T_OVP = 'RESERVOIR POWER REQUIRED PROFILES'
 
 
@@ -119,12 +121,15 @@ def build_map(s):
     put(S_ENG, 'Water loss rate', rs.waterloss.value, rs.waterloss.CurrentUnits)
     put(S_ENG, 'Pump efficiency', sp.pump_efficiency.value, sp.pump_efficiency.CurrentUnits)
     put(S_ENG, 'Injection temperature', wb.Tinj.value, wb.Tinj.CurrentUnits)
+    closed_loop = bool(wb.IsAGS.value) if wb.has('IsAGS') else False      # the writer drops the reservoir blocks then
     if wb.rameyoptionprod.value:
         put(S_ENG, 'Average production well temperature drop', float(np.mean(_a(wb.ProdTempDrop.value))), wb.ProdTempDrop.CurrentUnits)
-        put(S_SIM, 'Average Production Well Temperature Drop', float(np.mean(_a(wb.ProdTempDrop.value))), wb.ProdTempDrop.CurrentUnits)
+        if not closed_loop:
+            put(S_SIM, 'Average Production Well Temperature Drop', float(np.mean(_a(wb.ProdTempDrop.value))), wb.ProdTempDrop.CurrentUnits)
     else:
         put(S_ENG, 'Constant production well temperature drop', wb.tempdropprod.value, wb.tempdropprod.CurrentUnits)
-        put(S_SIM, 'Wellbore Heat Transmission Model = Constant Temperature Drop', wb.tempdropprod.value, wb.tempdropprod.CurrentUnits)
+        if not closed_loop:
+            put(S_SIM, 'Wellbore Heat Transmission Model = Constant Temperature Drop', wb.tempdropprod.value, wb.tempdropprod.CurrentUnits)
     put(S_ENG, 'Injection well casing ID', wb.injwelldiam.value, wb.injwelldiam.CurrentUnits)
     put(S_ENG, 'Production well casing ID', wb.prodwelldiam.value, wb.prodwelldiam.CurrentUnits)
     put(S_ENG, 'Number of times redrilling', wb.redrill.value, 'count')
@@ -132,46 +137,52 @@ def build_map(s):
     put(S_RES, 'Maximum reservoir temperature', rs.Tmax.value, rs.Tmax.CurrentUnits)
     put(S_RES, 'Number of segments', nseg, 'count')
     # ------------------------------------------------------------------------------------------------- reservoir
+    # closed-loop wellbore classes set IsAGS: the writer replaces the reservoir blocks by a one-line notice
+    is_ags = bool(wb.IsAGS.value) if wb.has('IsAGS') else False
+
+    def putr(sec, label, value, unit):
+        if not is_ags:
+            put(sec, label, value, unit)
     rcls = s.classes.get('reserv')
     if rcls == 'SFReservoir':
-        put(S_RPA, 'm/A Drawdown Parameter', rs.drawdp.value, rs.drawdp.CurrentUnits)
+        putr(S_RPA, 'm/A Drawdown Parameter', rs.drawdp.value, rs.drawdp.CurrentUnits)
     elif rcls == 'TDPReservoir':
-        put(S_RPA, 'Annual Thermal Drawdown', rs.drawdp.value, rs.drawdp.CurrentUnits)
-    put(S_RPA, 'Bottom-hole temperature', rs.Trock.value, rs.Trock.CurrentUnits)
-    put(S_RPA, 'Reservoir volume', rs.resvolcalc.value, rs.resvol.CurrentUnits)
+        putr(S_RPA, 'Annual Thermal Drawdown', rs.drawdp.value, rs.drawdp.CurrentUnits)
+    putr(S_RPA, 'Bottom-hole temperature', rs.Trock.value, rs.Trock.CurrentUnits)
+    putr(S_RPA, 'Reservoir volume', rs.resvolcalc.value, rs.resvol.CurrentUnits)
     if wb.impedancemodelused.value:
-        put(S_RPA, 'Reservoir impedance', wb.impedance.value / 1000.0, wb.impedance.CurrentUnits)
+        putr(S_RPA, 'Reservoir impedance', wb.impedance.value / 1000.0, wb.impedance.CurrentUnits)
     else:
         if wb.overpressure_percentage.Provided:
-            put(S_RPA, 'Average reservoir pressure', wb.average_production_reservoir_pressure.value,
+            putr(S_RPA, 'Average reservoir pressure', wb.average_production_reservoir_pressure.value,
                 wb.average_production_reservoir_pressure.CurrentUnits)
         else:
-            put(S_RPA, 'Reservoir hydrostatic pressure', _a(wb.production_reservoir_pressure.value)[0],
+            putr(S_RPA, 'Reservoir hydrostatic pressure', _a(wb.production_reservoir_pressure.value)[0],
                 wb.production_reservoir_pressure.CurrentUnits)
-        put(S_RPA, 'Plant outlet pressure', sp.plant_outlet_pressure.value, sp.plant_outlet_pressure.CurrentUnits)
+        putr(S_RPA, 'Plant outlet pressure', sp.plant_outlet_pressure.value, sp.plant_outlet_pressure.CurrentUnits)
         if wb.productionwellpumping.value:
-            put(S_RPA, 'Production wellhead pressure', wb.Pprodwellhead.value, wb.Pprodwellhead.CurrentUnits)
-            put(S_RPA, 'Productivity Index', wb.PI.value, wb.PI.CurrentUnits)
-        put(S_RPA, 'Injectivity Index', wb.II.value, wb.II.CurrentUnits)
-    put(S_RPA, 'Reservoir density', rs.rhorock.value, rs.rhorock.CurrentUnits)
+            putr(S_RPA, 'Production wellhead pressure', wb.Pprodwellhead.value, wb.Pprodwellhead.CurrentUnits)
+            putr(S_RPA, 'Productivity Index', wb.PI.value, wb.PI.CurrentUnits)
+        putr(S_RPA, 'Injectivity Index', wb.II.value, wb.II.CurrentUnits)
+    putr(S_RPA, 'Reservoir density', rs.rhorock.value, rs.rhorock.CurrentUnits)
     if wb.rameyoptionprod.value or rcls in ('MPFReservoir', 'LHSReservoir', 'SFReservoir'):
-        put(S_RPA, 'Reservoir thermal conductivity', rs.krock.value, rs.krock.CurrentUnits)
+        putr(S_RPA, 'Reservoir thermal conductivity', rs.krock.value, rs.krock.CurrentUnits)
     if rcls in ('MPFReservoir', 'LHSReservoir'):
         shape = getattr(rs.fracshape.value, 'name', str(rs.fracshape.value))
         if shape in ('CIRCULAR_AREA', 'CIRCULAR_DIAMETER'):
-            put(S_RPA, 'Well separation: fracture diameter', rs.fracheightcalc.value, rs.fracheight.CurrentUnits)
+            putr(S_RPA, 'Well separation: fracture diameter', rs.fracheightcalc.value, rs.fracheight.CurrentUnits)
         else:
-            put(S_RPA, 'Well separation: fracture height', rs.fracheightcalc.value, rs.fracheight.CurrentUnits)
+            putr(S_RPA, 'Well separation: fracture height', rs.fracheightcalc.value, rs.fracheight.CurrentUnits)
         if shape == 'RECTANGULAR':
-            put(S_RPA, 'Fracture width', rs.fracwidthcalc.value, rs.fracwidth.CurrentUnits)
-        put(S_RPA, 'Fracture area', rs.fracareacalc.value, rs.fracarea.CurrentUnits)
+            putr(S_RPA, 'Fracture width', rs.fracwidthcalc.value, rs.fracwidth.CurrentUnits)
+        putr(S_RPA, 'Fracture area', rs.fracareacalc.value, rs.fracarea.CurrentUnits)
     volopt = getattr(rs.resvoloption.value, 'name', str(rs.resvoloption.value))
     if volopt in ('FRAC_NUM_SEP', 'RES_VOL_FRAC_SEP'):
-        put(S_RPA, 'Number of fractures', rs.fracnumbcalc.value, 'count')
-        put(S_RPA, 'Fracture separation', rs.fracsepcalc.value, rs.fracsep.CurrentUnits)
-    put(S_RPA, 'Reservoir heat capacity', rs.cprock.value, rs.cprock.CurrentUnits)
+        putr(S_RPA, 'Number of fractures', rs.fracnumbcalc.value, 'count')
+        putr(S_RPA, 'Fracture separation', rs.fracsepcalc.value, rs.fracsep.CurrentUnits)
+    putr(S_RPA, 'Reservoir heat capacity', rs.cprock.value, rs.cprock.CurrentUnits)
     if rcls == 'LHSReservoir':
-        put(S_RPA, 'Reservoir porosity', rs.porrock.value, rs.porrock.CurrentUnits)
+        putr(S_RPA, 'Reservoir porosity', rs.porrock.value, rs.porrock.CurrentUnits)
     # ------------------------------------------------------------------------------------------------- simulation
     tp = _a(wb.ProducedTemperature.value)
     tu = wb.ProducedTemperature.CurrentUnits
@@ -179,17 +190,17 @@ def build_map(s):
     put(S_SIM, 'Average Production Temperature', float(tp.mean()), tu)
     put(S_SIM, 'Minimum Production Temperature', float(tp.min()), tu)
     put(S_SIM, 'Initial Production Temperature', float(tp[0]), tu)
-    put(S_SIM, 'Average Reservoir Heat Extraction', float(np.mean(_a(sp.HeatExtracted.value))), sp.HeatExtracted.CurrentUnits)
+    putr(S_SIM, 'Average Reservoir Heat Extraction', float(np.mean(_a(sp.HeatExtracted.value))), sp.HeatExtracted.CurrentUnits)
     if wb.impedancemodelused.value:
-        put(S_SIM, 'Total Average Pressure Drop', float(np.mean(_a(wb.DPOverall.value))), wb.DPOverall.CurrentUnits)
-        put(S_SIM, 'Average Injection Well Pressure Drop', float(np.mean(_a(wb.DPInjWell.value))), wb.DPInjWell.CurrentUnits)
-        put(S_SIM, 'Average Reservoir Pressure Drop', float(np.mean(_a(wb.DPReserv.value))), wb.DPReserv.CurrentUnits)
-        put(S_SIM, 'Average Production Well Pressure Drop', float(np.mean(_a(wb.DPProdWell.value))), wb.DPProdWell.CurrentUnits)
-        put(S_SIM, 'Average Buoyancy Pressure Drop', float(np.mean(_a(wb.DPBouyancy.value))), wb.DPBouyancy.CurrentUnits)
+        putr(S_SIM, 'Total Average Pressure Drop', float(np.mean(_a(wb.DPOverall.value))), wb.DPOverall.CurrentUnits)
+        putr(S_SIM, 'Average Injection Well Pressure Drop', float(np.mean(_a(wb.DPInjWell.value))), wb.DPInjWell.CurrentUnits)
+        putr(S_SIM, 'Average Reservoir Pressure Drop', float(np.mean(_a(wb.DPReserv.value))), wb.DPReserv.CurrentUnits)
+        putr(S_SIM, 'Average Production Well Pressure Drop', float(np.mean(_a(wb.DPProdWell.value))), wb.DPProdWell.CurrentUnits)
+        putr(S_SIM, 'Average Buoyancy Pressure Drop', float(np.mean(_a(wb.DPBouyancy.value))), wb.DPBouyancy.CurrentUnits)
     else:
-        put(S_SIM, 'Average Injection Well Pump Pressure Drop', float(np.mean(_a(wb.DPInjWell.value))), wb.DPInjWell.CurrentUnits)
+        putr(S_SIM, 'Average Injection Well Pump Pressure Drop', float(np.mean(_a(wb.DPInjWell.value))), wb.DPInjWell.CurrentUnits)
         if wb.productionwellpumping.value:
-            put(S_SIM, 'Average Production Well Pump Pressure Drop', float(np.mean(_a(wb.DPProdWell.value))), wb.DPProdWell.CurrentUnits)
+            putr(S_SIM, 'Average Production Well Pump Pressure Drop', float(np.mean(_a(wb.DPProdWell.value))), wb.DPProdWell.CurrentUnits)
     # ------------------------------------------------------------------------------------------------- capital costs
     cu = ec.CCap.CurrentUnits
     nwells = int(wb.nprod.value) + int(wb.ninj.value)
@@ -315,6 +326,21 @@ def build_map(s):
             put(S_EXT, 'Total Add-on Net Heat', ae.AddOnHeatGainedTotalPerYear.value, ae.AddOnHeatGainedTotalPerYear.CurrentUnits)
             put(S_EXT, 'Total Add-on Profit', ae.AddOnProfitGainedTotalPerYear.value, ae.AddOnProfitGainedTotalPerYear.CurrentUnits)
             put(S_EXT, 'AddOns Payback Period', ae.AddOnPaybackPeriod.value, ae.AddOnPaybackPeriod.CurrentUnits)
+    # ------------------------------------------------------------------------------------------------- S-DAC-GT
+    if cfg['sdac']:
+        sd = s.sdacgteconomics
+        for lab, prm in (('LCOD using grid-based electricity only', sd.LCOD_elec), ('LCOD using natural gas only', sd.LCOD_ng),
+                         ('LCOD using geothermal energy only', sd.LCOD_geo), ('Geothermal LCOH', sd.LCOH),
+                         ('Total Tonnes of CO2 Captured', sd.CarbonExtractedTotal)):
+            put(S_SDAC, lab, prm.value, prm.CurrentUnits)
+        # fractions that the writer multiplies by 100 and labels '%'
+        for lab, prm in (('CO2 Intensity using grid-based electricity only', sd.CO2total_elec),
+                         ('CO2 Intensity using natural gas only', sd.CO2total_ng),
+                         ('CO2 Intensity using geothermal energy only', sd.CO2total_geo),
+                         ('Geothermal Ratio (electricity vs heat)', sd.percent_thermal_energy_going_to_heat),
+                         ('Percent Energy Devoted To Process', sd.EnergySplit)):
+            put(S_SDAC, lab, float(prm.value) * 100.0, '%')
+        put(S_SDAC, 'Total Cost of Capture', float(_a(sd.S_DAC_GTCummCashFlow.value)[-1]), sd.S_DAC_GTCummCashFlow.CurrentUnits)
     return M, cfg, True
 
 
@@ -403,6 +429,12 @@ def expected_tables(s, cfg):
                 rows.append([ii + 1, ep[ii], aer[op] if op >= 0 else 0.0, hp_[ii], ahr[op] if op >= 0 else 0.0,
                              ar[op] if op >= 0 else 0.0, acf[ii], acc[ii], pcf[ii], pcc[ii]])
             T[T_EXT] = rows
+    if cfg['sdac']:
+        sd = s.sdacgteconomics
+        ca, cc = _a(sd.CarbonExtractedAnnually.value), _a(sd.S_DAC_GTCummCarbonExtracted.value)
+        ac, cf, cp = _a(sd.S_DAC_GTAnnualCost.value), _a(sd.S_DAC_GTCummCashFlow.value), _a(sd.CummCostPerTonne.value)
+        if all(x.ndim == 1 and len(x) >= L for x in (ca, cc, ac, cf, cp)):
+            T[T_SDAC] = [[i + 1, ca[i], cc[i], ac[i], cf[i], cp[i]] for i in range(L)]
     return T
 
 
